@@ -57,6 +57,8 @@ def scenario(rng, findings=False):
                       "how": rng.choice(["deepcopy", "pickle"])})
         sends([1, 2, 3], rng.randint(2, 6))
     scn["steps"] = steps
+    # listeners that are value-like (compare and hash equal to each other) or unhashable (a plain @dataclass)
+    scn["listener_kind"] = rng.choice(["attr", "attr", "equal", "unhashable"])
     return scn
 
 
@@ -89,7 +91,8 @@ def featurize(scn, res, v):
     if async_any and not async_on_machine_or_model:
         listener_only_async = True
     nxt = lines[k] if k < len(lines) else {}
-    return {"copied_before_activation": copied_before_activation, "async_only_on_listeners": listener_only_async,
+    return {"listener_kind": scn.get("listener_kind", "attr"), "listeners": len([p for p in ctor_provs if p not in ("sm", "model")]),
+            "copied_before_activation": copied_before_activation, "async_only_on_listeners": listener_only_async,
             "written_before_activation": written_before_activation,
             "on_clone": nxt.get("i", 1) != 1}
 
@@ -117,6 +120,6 @@ def run(pid, tier, seed, replay):
         chk.report({"kind": "clone_shares_model"}, "clone.model is original.model", {"scenario": scn})
     chk.coverage["rule"] = ("history of 0-4 calls, copy (deepcopy | pickle), diverging suffixes on original and clone in random "
                             "interleaving, optionally a copy of either and a third suffix; options rtc/allow/start_value/state_field, "
-                            "models and listeners with callbacks, both engines incl. copies taken before activation")
+                            "models and listeners with callbacks (listeners also value-like: equal to each other, or unhashable), both engines incl. copies taken before activation")
     chk.coverage["exhaustive"] = False
     return chk.finish()
